@@ -1,7 +1,7 @@
 """C06 — number of active flavours follows the thresholds and the scheme."""
 import numpy as np
 from lib import common, cards, runs, spec
-from corr import thresholds, wlayer, scalevar
+from corr import thresholds, wlayer, scalevar, assembly
 
 LEVEL = "proof"
 TRUSTED = ["Coq 8.16.1 kernel + vm_compute", "tools/corr/thresholds.py (harness, float->rational conversion)",
@@ -106,6 +106,21 @@ def patrol(chk, n):
     return bad
 
 
+def heavy_rows_patrol(chk):
+    """fixed-flavour scheme with two massive quarks and intrinsic kernels: the bottom-initiated rows are built with nf = ihq-1 = 4 (intrinsic/kernels.py),
+    their scale-variation terms must nevertheless carry beta0(NfFF=3)"""
+    c = dict(theory=dict(FNS="FFNS", NfFF=3, PTO=2, PTODIS=2, RenScaleVar=True, FactScaleVar=True, IC=1), obs=dict(prDIS="EM"),
+             name="F2_bottom", x=0.05, Q2s=[10.0, 300.0])
+    try:
+        r = run_case(c)
+    except Exception as e:  # noqa
+        chk.patrol["nf_in_heavy_rows"] = dict(cases=1, failures=0, crashed_not_counted={type(e).__name__: 1}); return
+    chk.patrol["nf_in_heavy_rows"] = dict(cases=1, failures=int(r is not None), rule="FFNS NfFF=3, IC=1, NNLO, F2_bottom (bottom-initiated rows included): (2,0,1,0) = -beta0(3) x (1,0,0,0) on all 14 rows")
+    if r is not None:
+        chk.violation("beta0_heavy_rows:F2_bottom", "number of flavours in the scale-variation terms of the heavy-quark rows is not NfFF: %s" % (r,),
+                      dict(kind="beta0_across_thresholds/FFNS", case=c, result=r))
+
+
 def run(chk):
     chk.trusted = TRUSTED
     quick = chk.tier == "quick"
@@ -124,6 +139,9 @@ def run(chk):
                       "Combiner(%s_%s, %s NfFF=%s PTO=%s, %s, Q2=%r) hands its partonic channels (class, nf, heavy quark) %s, the model expects the nf of the scheme"
                       % (b["cfg"]["kind"], b["cfg"]["heavyness"], b["cfg"]["theory"]["FNS"], b["cfg"]["theory"]["NfFF"], b["cfg"]["theory"]["PTO"], b["cfg"]["obs"]["prDIS"], b["cfg"]["Q2"], b["detail"]),
                       dict(kind="combiner", combiner=b["cfg"]))
+    bad5 = assembly.run_assembly(chk, 40 if quick else 400)
+    chk.oblige("correspondence compute_local: the scale-variation terms of every kernel use the Combiner's nf (also when the kernel's own nf differs)", not bad5, str(bad5[:1])[:500])
+    heavy_rows_patrol(chk)
     patrol(chk, 9 if quick else 150)
     if chk.red() and not chk.violations:
         patrol(chk, 120)
